@@ -148,7 +148,7 @@ var metas = map[string]propMeta{
 	"C12": {node: true, quickRuns: 2500, thoroughSec: 1200, batch: 200, level: "exploration"},
 	"C13": {node: true, quickRuns: 1200, thoroughSec: 1200, batch: 200, level: "exploration"},
 	"C14": {node: true, quickRuns: 2500, thoroughSec: 1200, batch: 200, level: "exploration"},
-	"C15": {node: true, quickRuns: 400, thoroughSec: 1200, batch: 4, level: "exploration", race: true},
+	"C15": {node: true, quickRuns: 600, thoroughSec: 1200, batch: 4, level: "exploration", race: true},
 	"C16": {node: true, quickRuns: 1500, thoroughSec: 1200, batch: 150, level: "exploration"},
 	"C20": {quickRuns: 3000, thoroughSec: 600, batch: 300, level: "fault_enumeration"},
 }
